@@ -150,7 +150,23 @@ func timeNorm(format string, o vh.Opts) func(time.Time) time.Time {
 
 func normCfg(format string, o vh.Opts) vh.NormCfg {
 	nz, _ := o["NilCollectionToZeroLength"].(bool)
-	return vh.NormCfg{NilToEmpty: nz, Time: timeNorm(format, o)}
+	c := vh.NormCfg{NilToEmpty: nz, Time: timeNorm(format, o)}
+	if format == "binc" {
+		// binc has one code for a zero float (bincSpZeroFloat): the sign of zero is not kept
+		c.F64 = func(f float64) float64 {
+			if f == 0 {
+				return 0
+			}
+			return f
+		}
+		c.F32 = func(f float32) float32 {
+			if f == 0 {
+				return 0
+			}
+			return f
+		}
+	}
+	return c
 }
 
 func lenClass(n int) string {
@@ -383,11 +399,40 @@ func roundTrip(format string, o vh.Opts, t reflect.Type, v reflect.Value, r *vh.
 		}
 		if d := vh.FirstDiff(want, dst.Elem()); d != "" {
 			cj["diff"] = d
+			if s2r, _ := o["StringToRaw"].(bool); s2r && format == "json" && plainRoundTrip(format, without(o, "StringToRaw"), t, v) {
+				// root cause pinned: the same value and options round-trip once StringToRaw is off
+				sum.FailC(stream, "roundtrip:json:StringToRaw", "json with StringToRaw writes a string as base64 and reads it back as the base64 text", cj)
+				return len(enc), false
+			}
 			sum.FailC(stream, "roundtrip:"+format+":"+d, "Decode(Encode(v)) differs from v", cj)
 			return len(enc), false
 		}
 	}
 	return len(enc), true
+}
+
+func without(o vh.Opts, k string) vh.Opts {
+	o2 := vh.Opts{}
+	for kk, x := range o {
+		if kk != k {
+			o2[kk] = x
+		}
+	}
+	return o2
+}
+
+// plainRoundTrip: bytes transport only, no reporting.
+func plainRoundTrip(format string, o vh.Opts, t reflect.Type, v reflect.Value) bool {
+	h := vh.NewHandle(format, o)
+	enc, err := encodeBytes(h, v.Interface())
+	if err != nil {
+		return false
+	}
+	dst := reflect.New(t)
+	if codec.NewDecoderBytes(enc, h).Decode(dst.Interface()) != nil {
+		return false
+	}
+	return vh.FirstDiff(vh.Norm(v, normCfg(format, o)), dst.Elem()) == ""
 }
 
 func hasMap(t reflect.Type) bool {
